@@ -80,11 +80,15 @@ def generate(plan) -> None:
     k["flow"] = r.choice(sorted(FLOWS))
     k["fault_free"] = r.random() < 0.15
     ff = k["fault_free"]
-    mode = "clean" if ff else r.choice(["dups", "dups", "loss", "loss", "delay", "mixed", "mixed", "resp_only", "supp_only"])
+    mode = "clean" if ff else r.choice(["dups", "dups", "loss", "loss", "delay", "mixed", "mixed", "resp_only", "supp_only",
+                                        "cancel_retry", "cancel_retry"])
+    if mode == "cancel_retry":  # the caller gives up early and tries again at once; the peer only turns up during the retry
+        k["cancel"] = {"who": r.choice(["resp", "supp", "both"]), "at": r.choice([0.05, 0.3, 1.0, 2.5, 4.5]),
+                       "retry_gap": r.choice([0.0, 0.01, 0.5, 2.0]), "peer_delay": r.choice([0.0, 1.0, 2.5, 4.0, 4.6])}
     k["mode"] = mode
-    k["p_dup"] = 0.0 if ff or mode in ("loss", "delay") else r.choice([0.3, 0.6, 1.0])
-    k["p_drop"] = 0.0 if ff or mode in ("dups", "delay") else r.choice([0.1, 0.3, 0.6])
-    k["p_delay"] = 0.0 if ff or mode in ("dups", "loss") else r.choice([0.2, 0.5])
+    k["p_dup"] = 0.0 if ff or mode in ("loss", "delay", "cancel_retry") else r.choice([0.3, 0.6, 1.0])
+    k["p_drop"] = 0.0 if ff or mode in ("dups", "delay", "cancel_retry") else r.choice([0.1, 0.3, 0.6])
+    k["p_delay"] = 0.0 if ff or mode in ("dups", "loss", "cancel_retry") else r.choice([0.2, 0.5])
     k["p_echo_lost"] = 0.0 if ff or mode == "dups" else r.choice([0.0, 0.0, 0.2])
     k["p_echo_dup"] = 0.0 if ff else r.choice([0.0, 0.3])
     k["tie_rate"] = 0.0 if ff else r.choice([0.0, 0.5])
@@ -92,7 +96,7 @@ def generate(plan) -> None:
     k["start_gap"] = r.choice([0.0, 0.0, 0.05, 1.0, 4.9, 5.05, 5.2])  # the supplicant starts this long after the respondent
     k["supp_first"] = r.random() < 0.15
     ops = plan.d["ops"]
-    if not ff:
+    if not ff and mode != "cancel_retry":
         for _ in range(r.choice([0, 0, 1, 2, 4])):
             ops.append({"op": "third", "at": round(r.choice([0.0, 0.02, 0.1, 0.5, 1.0, 3.0, 5.0]) + r.random() * 0.05, 3),
                         "kind": r.choice(["offer", "accept_other", "confirm_other", "accept_to_supp", "offer_late", "confirm_to_resp"])})
@@ -297,6 +301,37 @@ async def run(ctx) -> None:
         await asyncio.gather(*tasks)
         return res
 
+    async def cancel_retry() -> None:
+        c = k("cancel")
+        who = c["who"]
+        hub.count("caller_cancel")
+        t1 = loop.create_task(attempt("cancelled", 0.0, False, None if who == "both" else who))
+        await asyncio.sleep(c["at"])
+        t1.cancel()
+        try:
+            await t1
+        except asyncio.CancelledError:
+            pass
+        await asyncio.sleep(0)
+        for name, dev in (("resp", resp), ("supp", supp)):
+            if dev._bind_context.is_binding:
+                ctx.violate("C20", "still_binding", f"{name}:after_cancel", f"the caller cancelled the {name}'s attempt after {c['at']} s; one "
+                            f"loop turn later the device is still binding: {dev._bind_context!r}")
+        await asyncio.sleep(c["retry_gap"])
+        faults_on[0] = False
+        wire.clear()
+        first = "resp" if who in ("resp", "both") else "supp"  # the side that retries at once; its peer turns up peer_delay later
+        res = await attempt("retry", c["peer_delay"], first == "supp", None)
+        # the retry is loss-free: if the peer turned up within the waiting side's stated wait, both must succeed
+        # (a supplicant sends its offer once: a respondent that only starts listening afterwards cannot have heard it)
+        # (a frame of the cancelled attempt may still go out at the instant of the cancel -- KF1's mechanism --: when both sides
+        #  were cancelled the retry can be answered by it, so only single-sided cancels are judged for success)
+        in_time = who != "both" and ((first == "resp" and c["peer_delay"] <= 4.0) or c["peer_delay"] == 0.0)
+        judge("retry right after a cancelled attempt", res, in_time)
+        ctx.probe("cancel_retry_judged_strictly" if in_time else "cancel_retry_peer_too_late")
+        await asyncio.sleep(6.0)
+        cleanup("retry after cancel")
+
     def judge(tag: str, res: dict, strict: bool) -> bool:
         """-> both sides succeeded"""
         ok = True
@@ -351,6 +386,18 @@ async def run(ctx) -> None:
 
     n_exc = [0]
     mode = k("mode")
+    if mode == "cancel_retry":
+        await cancel_retry()
+        await gwy_r.stop()
+        await gwy_s.stop()
+        await asyncio.sleep(0.1)
+        gc.collect()
+        for e in ctx.loop_excs[n_exc[0]:]:
+            ctx.violate("C20", "loop_exception", e["sig"], f"teardown: the event loop's exception handler got {e['type']}: {e['text'][:200]}")
+        ctx.nontrivial = True
+        ctx.ab(f"{k('flow')}|cancel_retry|{k('cancel')}")
+        ctx.sample = {"flow": k("flow"), "mode": mode, "cancel": k("cancel")}
+        return
     only = {"resp_only": "resp", "supp_only": "supp"}.get(mode)
     if only:
         lossy[0] = True
@@ -411,6 +458,10 @@ def generate_scripted(plan) -> None:
     k["script"] = {ph: {"n": rep(), "gap": gap(), "lat": lat(), "lost": (not ff) and r.random() < 0.12}
                    for ph in ("offer", "accept", "confirm", "addenda")}
     k["late_offer_repeat"] = (not ff) and r.random() < 0.4  # the 2nd/3rd copy of the offer arrives after our accept
+    # the gateway's own first transmissions of its first frame (accept / offer) get no echo, so it re-transmits; the scripted
+    # device may have missed the first copies too and answers the n-th one
+    k["echo_lost_first"] = 0 if ff else r.choice([0, 0, 0, 1, 2, 3])
+    k["heard_nth"] = 1 if ff else r.choice([1, 1, 1, 2, 3])
     k["start_gap"] = r.choice([0.0, 0.05, 1.0, 4.9, 5.2])
     ops = plan.d["ops"]
     if not ff:
@@ -451,12 +502,33 @@ async def run_scripted(ctx) -> None:
     late = [False]
     n_exc = [0]
 
+    t_first: dict[str, float] = {}   # when the first copy of a scripted frame is delivered
+    tx_times: dict[str, list] = {}   # phase -> [(t, echo heard?)] of our gateway's transmissions
+    t_call = [loop.time()]
+    faults = [True]
+
+    def echo_policy(ser_, frame, nth):
+        line = frame.decode("latin-1")
+        if " 1FC9 " not in line and " 10E0 " not in line:
+            return [0.01]
+        ph = phase_of(line)
+        first = "accept" if real == "resp" else "offer"
+        lost = faults[0] and ph == first and nth <= k("echo_lost_first", 0)
+        tx_times.setdefault(ph, []).append((loop.time(), not lost))
+        if lost:
+            hub.count("echo_lost")
+            return []
+        return [0.01]
+
+    hub.echo_policy = echo_policy
+
     def say(phase: str, frame: str, base_delay: float = 0.0) -> None:
         p = sc[phase]
         if p["lost"]:
             hub.count("rf_drop")
             lossy[0] = True
             return
+        t_first.setdefault(phase, loop.time() + base_delay + p["lat"])
         air.append(frame)
         for i in range(p["n"]):
             hub.rx_line(ser, frame, base_delay + p["lat"] + i * p["gap"])
@@ -474,7 +546,7 @@ async def run_scripted(ctx) -> None:
             return
         wire.append(line)
         ph = phase_of(line)
-        if real == "resp" and ph == "accept" and not heard["accept"]:
+        if real == "resp" and ph == "accept" and not heard["accept"] and nth >= (k("heard_nth", 1) if faults[0] else 1):
             heard["accept"] = True
             if late_repeat[0] and not sc["offer"]["lost"]:
                 hub.rx_line(ser, pk[0], 0.03)  # a straggling copy of the offer
@@ -482,7 +554,7 @@ async def run_scripted(ctx) -> None:
             say("confirm", pk[2])
             if ratify:
                 say("addenda", pk[3], sc["confirm"]["lat"] + 0.06)
-        elif real == "supp" and ph == "offer" and not heard["offer"]:
+        elif real == "supp" and ph == "offer" and not heard["offer"] and nth >= (k("heard_nth", 1) if faults[0] else 1):
             heard["offer"] = True
             say("accept", pk[1])
 
@@ -521,6 +593,7 @@ async def run_scripted(ctx) -> None:
         except BaseException as err:  # noqa
             return ("exc", err, loop.time() - ts, bound)
 
+    t_call[0] = loop.time()
     task = loop.create_task(attempt())
     if real == "resp":
         sg = k("start_gap", 0.0)
@@ -528,7 +601,24 @@ async def run_scripted(ctx) -> None:
             late[0] = True
         loop.call_later(sg, say, "offer", pk[0])
     st, val, dur, bound = await task
-    strict = not lossy[0] and not late[0]
+
+    def done_at(ph):  # when our gateway's send of that phase completed: its first transmission whose echo came back
+        return next((t + 0.01 for (t, ok) in tx_times.get(ph, []) if ok), None)
+
+    EPS = 0.06
+    if lossy[0]:
+        strict = False
+    elif real == "resp":  # offer within 5 s of the call; confirm within 3 s of the accept having been sent (and 5.1 s of the offer);
+        tO, tC, tR = t_first.get("offer"), t_first.get("confirm"), t_first.get("addenda")   # addendum within 3 s of the confirm
+        tD = done_at("accept")
+        strict = bool(tO is not None and tO - t_call[0] < 5.0 - EPS and tD is not None and tC is not None
+                      and tO + 0.02 < tC < min(tD + 3.0, tO + 5.1) - EPS
+                      and (not ratify or (tR is not None and tC + 0.02 < tR < tC + 3.0 - EPS)))
+    else:  # accept within 5 s of the offer having been sent (and 5.1 s of the call)
+        tA, tD = t_first.get("accept"), done_at("offer")
+        strict = bool(tA is not None and tD is not None and tD < tA < min(tD + 5.0, t_call[0] + 5.1) - EPS)
+    if strict and (late[0] or k("echo_lost_first") or k("heard_nth", 1) > 1):
+        ctx.probe("judged_strictly_although_late_or_retransmitted")
     name = real
     ctx.ab(f"{real}:{st}:{'strict' if strict else 'lossy'}")
     ctx.ab("|".join(f"{ph[:2]}{v['n']}{'L' if v['lost'] else ''}@{v['lat']}" for ph, v in sorted(k("script").items())))
@@ -572,6 +662,9 @@ async def run_scripted(ctx) -> None:
     for ph in sc:
         sc[ph].update({"n": 1, "gap": 0.0, "lat": 0.05, "lost": False})
     heard.update({"offer": False, "accept": False, "confirm": False})
+    faults[0] = False
+    t_first.clear()
+    tx_times.clear()
     wire.clear()
     air.clear()
     on_air3.clear()
